@@ -350,3 +350,123 @@ Proof.
   - intros x r Hx. pose proof (si_bounds _ S _ _ Hx) as Hb. destruct r; cbn in *; rewrite ?Hp, ?Hc, ?Hl; auto.
   - apply (si_inj _ S).
 Qed.
+
+(* ---------- through declaration and lowering ---------- *)
+
+Lemma declare_sinv (mk : scope -> bool -> name -> ty -> outcome (reg * scope)) :
+  (forall sc v n t r sc', sinv sc -> sc_get (sc_named sc) n = None -> is_builtin_name n = false ->
+                          mk sc v n t = Ok (r, sc') -> sinv sc' /\ forall m, n <> m -> sc_get (sc_named sc') m = sc_get (sc_named sc) m) ->
+  forall ds sc sc', declare mk ds sc = Ok sc' -> sinv sc ->
+    NoDup (names_of ds) -> (forall n, In n (names_of ds) -> sc_get (sc_named sc) n = None /\ is_builtin_name n = false) ->
+    sinv sc'.
+Proof.
+  intros Hmk. induction ds as [|[[v n] t] r IH]; intros sc sc' H S Hnd Hf; cbn [declare] in H.
+  - inversion H; subst. exact S.
+  - apply bind_ok_inv in H. destruct H as ([r1 sc1] & H1 & H).
+    cbn [names_of] in Hnd, Hf. inversion Hnd as [|? ? Hni Hnd']; subst.
+    destruct (Hf n (or_introl eq_refl)) as [Hfn Hbn].
+    destruct (Hmk _ _ _ _ _ _ S Hfn Hbn H1) as [S1 Ho].
+    eapply IH; eauto. intros m Hm. destruct (Hf m (or_intror Hm)) as [Hfm Hbm]. split; [|exact Hbm].
+    rewrite Ho; [exact Hfm|]. intros ->. contradiction.
+Qed.
+
+Lemma new_report_other sc v n t r sc' : new_report sc v n t = Ok (r, sc') ->
+  forall m, n <> m -> sc_get (sc_named sc') m = sc_get (sc_named sc) m.
+Proof.
+  unfold new_report. destruct (255 <=? sc_nperm sc); [discriminate|]. intros H; inversion H; subst. cbn.
+  intros m Hm. apply get_insert_other. exact Hm.
+Qed.
+
+Lemma new_control_other sc v n t r sc' : new_control sc v n t = Ok (r, sc') ->
+  forall m, n <> m -> sc_get (sc_named sc') m = sc_get (sc_named sc) m.
+Proof.
+  unfold new_control. destruct (255 <=? sc_nctl sc); [discriminate|]. intros H; inversion H; subst. cbn.
+  intros m Hm. apply get_insert_other. exact Hm.
+Qed.
+
+Lemma compile_expr_sinv e : forall sc is r sc', compile_expr e sc = Ok (is, r, sc') -> sinv sc -> sinv sc'.
+Proof.
+  induction e as [p|c|o l IHl r0 IHr|]; intros sc is r sc' H S.
+  - destruct p as [b|x|n].
+    + inversion H; subst. exact S.
+    + cbn [compile_expr] in H. destruct (sc_get (sc_named sc) x) eqn:E.
+      * inversion H; subst. exact S.
+      * apply bind_ok_inv in H. destruct H as ([r1 sc1] & H1 & H). inversion H; subst.
+        eapply sinv_new_local; eauto.
+    + inversion H; subst. exact S.
+  - discriminate H.
+  - apply compile_sexp_inv in H. destruct H as (is1 & lft & sc1 & is2 & rgt & sc2 & H1 & H2 & H3).
+    specialize (IHl _ _ _ _ H1 S). specialize (IHr _ _ _ _ H2 IHl).
+    destruct (is_valop o) eqn:Vo.
+    + apply lower_tail_valop in H3; auto. destruct H3 as (_ & _ & Hn & _ & Hl & Hc & Hp). exact (sinv_same sc2 sc' IHr Hn Hp Hc Hl).
+    + destruct (is_condop o) eqn:Co.
+      * apply lower_tail_condop in H3; auto. destruct H3 as (_ & _ & ->). exact IHr.
+      * destruct o; try discriminate Vo; try discriminate Co.
+        -- apply lower_tail_bind in H3. destruct H3 as (lft' & [(s & _ & Hu)|(_ & _ & ->)] & _).
+           ++ exact (sinv_update_type _ _ _ _ _ IHr Hu).
+           ++ exact IHr.
+        -- discriminate H3.
+  - discriminate H.
+Qed.
+
+Lemma clear_tmps_sinv sc : sinv sc -> sinv (clear_tmps sc).
+Proof. intros S. exact (sinv_same sc (clear_tmps sc) S eq_refl eq_refl eq_refl eq_refl). Qed.
+
+Lemma compile_body_sinv es : forall sc is sc', compile_body es sc = Ok (is, sc') -> sinv sc -> sinv sc'.
+Proof.
+  induction es as [|e r IH]; intros sc is sc' H S; cbn [compile_body] in H.
+  - inversion H; subst. exact S.
+  - destruct e as [p|c|o l r0|].
+    all: try (apply bind_ok_inv in H; destruct H as ([[is1 r1] sc1] & H1 & H);
+              apply bind_ok_inv in H; destruct H as ([rest sc2] & H2 & H); inversion H; subst;
+              eapply IH; [exact H2|]; eapply compile_expr_sinv; [exact H1|apply clear_tmps_sinv; exact S]).
+    eapply IH; eauto.
+Qed.
+
+Lemma compile_flag_sinv e sc is sc' : compile_flag e sc = Ok (is, sc') -> sinv sc -> sinv sc'.
+Proof.
+  unfold compile_flag. intros H S. apply bind_ok_inv in H. destruct H as ([[is0 res] sc1] & Hc & H).
+  assert (S1 : sinv sc1) by (eapply compile_expr_sinv; [exact Hc|apply clear_tmps_sinv; exact S]).
+  destruct (sc_get (sc_named sc1) (lit "__eventFlag")); [|discriminate H].
+  destruct res; try discriminate H.
+  - inversion H; subst. exact S1.
+  - destruct t; try discriminate H. destruct (set_last_res is0 r); [|discriminate H]. inversion H; subst. exact S1.
+Qed.
+
+Lemma compile_events_sinv evs : forall sc idx devs is sc', compile_events evs sc idx = Ok (devs, is, sc') -> sinv sc -> sinv sc'.
+Proof.
+  induction evs as [|ev r IH]; intros sc idx devs is sc' H S; cbn [compile_events] in H.
+  - inversion H; subst. exact S.
+  - apply bind_ok_inv in H. destruct H as ([fi sc1] & Hf & H).
+    apply bind_ok_inv in H. destruct H as ([bi sc2] & Hb & H).
+    apply bind_ok_inv in H. destruct H as ([[evs' is'] sc3] & Hr & H). inversion H; subst.
+    eapply IH; [exact Hr|]. eapply compile_body_sinv; [exact Hb|]. eapply compile_flag_sinv; eauto.
+Qed.
+
+(* ---------- what the simulation needs of the final scope ---------- *)
+
+Lemma implicit_index_micros x : implicit_index x = Some 3 -> x = lit "Micros".
+Proof.
+  unfold implicit_index.
+  repeat match goal with
+         | |- (if name_eqb ?k x then _ else _) = _ -> _ =>
+           let E := fresh "E" in destruct (name_eqb k x) eqn:E; [apply name_eqb_eq in E; subst x; let Hq := fresh "Hq" in intros Hq; inversion Hq; try reflexivity|]
+         end.
+  intros Hq; discriminate Hq.
+Qed.
+
+Lemma sinv_micros sc x r : sinv sc -> sc_get (sc_named sc) x = Some r ->
+  (slot r = Some (FImpl, 3) <-> x = lit "Micros").
+Proof.
+  intros S Hx. split.
+  - intros Hs. destruct r; cbn in Hs; try discriminate Hs. inversion Hs; subst.
+    pose proof (si_impl _ S x) as Hi. destruct (implicit_index x) as [j|] eqn:E.
+    + destruct Hi as (u & Hi). rewrite Hx in Hi. inversion Hi; subst. apply implicit_index_micros. exact E.
+    + exfalso. exact (Hi _ _ Hx).
+  - intros ->. pose proof (si_impl _ S (lit "Micros")) as Hi.
+    assert (E : implicit_index (lit "Micros") = Some 3) by (vm_compute; reflexivity). rewrite E in Hi. destruct Hi as (u & Hi).
+    rewrite Hx in Hi. inversion Hi; subst. reflexivity.
+Qed.
+
+Lemma sinv_unique sc x r : sinv sc -> In (x, r) (sc_named sc) -> sc_get (sc_named sc) x = Some r.
+Proof. intros S. apply in_get. apply (si_keys _ S). Qed.
